@@ -215,6 +215,15 @@ func (e *cborEncDriver[T]) encStringBytesS(bb byte, v string) {
 			i2 := i + n
 			if i2 >= vlen {
 				i2 = vlen
+			} else if bb != cborBaseBytes {
+				// a chunk of a text string must itself be a valid text string (RFC 8949 3.2.3):
+				// start the next chunk at a code point boundary, not inside a multi-byte character
+				for i3 := i2; i3 > i; i3-- {
+					if utf8.RuneStart(v[i3]) {
+						i2 = i3
+						break
+					}
+				}
 			}
 			v2 := v[i:i2]
 			e.encLen(bb, len(v2))
